@@ -717,7 +717,12 @@ pub fn c09(_class: &str, seed: u64, p: &Params) -> Out {
         let build = |rng: &mut StdRng| {
             let mut order: Vec<usize> = (0..n).collect();
             order.shuffle(rng);
-            let mut info: Vec<(PublicKey, u32, std::net::SocketAddr)> = order.iter().map(|i| (keys[*i], rng.gen_range(1, 10), sock(rng.gen_range(0, 100)))).collect();
+            // stakes include zero-stake members: the proposer is derived from the committee's keys alone
+            let zero_some = rng.gen_bool(0.4);
+            let mut info: Vec<(PublicKey, u32, std::net::SocketAddr)> = order
+                .iter()
+                .map(|i| (keys[*i], if zero_some && rng.gen_bool(0.3) { 0 } else { rng.gen_range(1, 10) }, sock(rng.gen_range(0, 100))))
+                .collect();
             if rng.gen_bool(0.3) {
                 // duplicated insertion of one member
                 let d = info[0].clone();
